@@ -99,7 +99,8 @@ def Records.readImpl (msg : Bytes) (cur : Cur) (tr : Tracker) : Nat → Res (Opt
       | (.panic p, c1) => (.panic p, c1, tr1)
       | (.ub, c1) => (.ub, c1, tr1)
       | (.ok (rtype, rclass, ttl, rdlen), c1) =>
-        if !(isDefined CLASS_KNOWN rclass) || !(isDefined TYPE_KNOWN rtype) then
+        -- `rtype == Type::OPT ||` since the `fix:` commit for C02 (the CLASS field of OPT is a payload size)
+        if rtype == TYPE_OPT || !(isDefined CLASS_KNOWN rclass) || !(isDefined TYPE_KNOWN rtype) then
           match CurM.skip rdlen c1 with
           | (.ok (), c2) =>
             match tr1.sectionRead section_ c2.pos with
